@@ -1,3 +1,90 @@
 import TTModel.Proto
-/-! C13 driver — stub (not built yet): answers `bad-op` to everything. -/
-def main : IO Unit := TT.Proto.mainLoop fun _ => "bad-op"
+import TTModel.C13_Json
+import TTModel.C13_Loader
+import TTModel.C13_Codec
+import TTGen.C13_LoaderCfg
+/-! C13 driver: remove_comments / expand_plates / loader, on wire-encoded JSON (see C13_Codec). -/
+open TT.Proto TT.C13 TT.C13.Json
+
+def showSlot : Slot → String
+  | .one k => s!"one:{k}"
+  | .many k => s!"many:{k}"
+  | .optOne k => s!"optOne:{k}"
+  | .optMany k => s!"optMany:{k}"
+  | .each k => s!"each:{k}"
+  | .need k => s!"need:{k}"
+  | .firstOf alts => "firstOf:" ++ ",".intercalate (alts.map fun (k, b) => k ++ (if b then "+" else "-"))
+  | .sub k b m => s!"sub:{k}:{b}:" ++ (match m with | .dist => "dist" | .transform => "transform")
+
+def showClasses (t : ClassTable) : String :=
+  " ".intercalate (t.classes.map fun (n, c) => s!"{n}={c.name}[" ++ ";".intercalate (c.slots.map showSlot) ++ "]")
+    ++ " | " ++ " ".intercalate (t.sigs.map fun (n, a) => s!"{n}=" ++ ",".intercalate a)
+
+partial def showErr : Err → String
+  | .notFound r => s!"notFound:{hexOfString r}"
+  | .duplicate i => s!"duplicate:{hexOfString i}"
+  | .missingId => "missingId"
+  | .noType i => s!"noType:{hexOfString i}"
+  | .badClass i => s!"badClass:{hexOfString i}"
+  | .notValid => "notValid"
+  | .missingKey c i k => s!"missingKey:{hexOfString c}:{hexOfString i}:{hexOfString k}"
+  | .wrapped c i e => s!"wrapped:{hexOfString c}:{hexOfString i} " ++ showErr e
+  | .keyError k => s!"keyError:{hexOfString k}"
+  | .crash => "crash"
+  | .fuel => "fuel"
+
+def showAddrs (as : List Addr) : String := ".".intercalate (as.map toString)
+
+def showSt (st : St) : String :=
+  "reg " ++ ",".intercalate (st.reg.map fun (k, a) => s!"{hexOfString k}:{a}") ++
+  " heap " ++ ",".intercalate (st.heap.map fun o =>
+    s!"{hexOfString o.cls}:{hexOfString o.id}:" ++
+      ";".intercalate (o.kids.map fun (k, as) => s!"{hexOfString k}={showAddrs as}"))
+
+def parseCfg : String → Option Cfg
+  | "src" => some TTGen.C13.cfg
+  | "fixed" => some Cfg.fixed
+  | "unfixed" => some Cfg.unfixed
+  | _ => none
+
+def showPlateErr : PlateErr → String
+  | .notInList => "notInList" | .crash => "crash" | .fuel => "fuel"
+
+def handle (line : String) : String :=
+  match splitWords line with
+  | ["classes"] => showClasses classTable
+  | ["cfg"] => s!"{TTGen.C13.cfg.checkBefore} {TTGen.C13.cfg.checkAfter} {TTGen.C13.recognised}"
+  | "rc" :: toks => match decodeAll toks with
+    | some j => encodeStr (removeComments j)
+    | none => "bad-op"
+  | "clean" :: toks => match decodeAll toks with
+    | some j => if clean j then "1" else "0"
+    | none => "bad-op"
+  | "plates" :: toks => match decodeAll toks with
+    | some j => match expandPlatesFuel (4 * size j + 1000) (size j + 10) j with
+      | .ok j' => "ok " ++ encodeStr j'
+      | .error e => "err " ++ showPlateErr e
+    | none => "bad-op"
+  /- `load <cfg> <json list>`: the loop of main() on data already cleaned/expanded -/
+  | "load" :: c :: toks => match parseCfg c, decodeAll toks with
+    | some cfg, some (.arr xs) =>
+      let fuel := depthList xs + 2
+      match loadAll cfg classTable fuel xs ⟨[], []⟩ with
+      | .ok (rs, st) => "ok results " ++ ",".intercalate (rs.map fun r => "r" ++ showAddrs r) ++ " " ++ showSt st
+      | .error e => "err " ++ showErr e
+    | _, _ => "bad-op"
+  /- `main <cfg> <json>`: remove_comments, expand_plates, then the loop -/
+  | "main" :: c :: toks => match parseCfg c, decodeAll toks with
+    | some cfg, some j =>
+      match expandPlatesFuel (4 * size j + 1000) (size j + 10) (removeComments j) with
+      | .error e => "plate-err " ++ showPlateErr e
+      | .ok (.arr xs) =>
+        let fuel := depthList xs + 2
+        (match loadAll cfg classTable fuel xs ⟨[], []⟩ with
+         | .ok (rs, st) => "ok results " ++ ",".intercalate (rs.map fun r => "r" ++ showAddrs r) ++ " " ++ showSt st
+         | .error e => "err " ++ showErr e)
+      | .ok _ => "bad-op"
+    | _, _ => "bad-op"
+  | _ => "bad-op"
+
+def main : IO Unit := mainLoop handle
